@@ -62,7 +62,7 @@ def aux_cfg():
     return vlib.cfg_text("TSpec", {"HasLog": True, "MaxT": 2, "MaxOps": 0, "Values": {7}}, postcondition="Accepted")
 
 
-def build_aux(wd, mc_stats, tier, seed):
+def build_aux(wd, mc_stats, tier, seed, nmax=None, nrand=None):
     """Workloads for harness/auxdriver (used directly by C18 and as a further pipeline of C16)."""
     rnd = random.Random(seed)
     by_has = {}
@@ -71,8 +71,9 @@ def build_aux(wd, mc_stats, tier, seed):
         by_has[has] = scripts
         mc_stats.append({"instance": "ChangeLog HasLog=%s MaxT=2 MaxOps=%d" % (has, consts["MaxOps"]), "states": stats.get("states") or 0,
                          "transitions": stats.get("transitions") or 0, "scripts": len(scripts)})
-    nmax = 1200 if tier == "quick" else 10 ** 9
-    nrand, lrand = (60, 12) if tier == "quick" else (400, 20)
+    nmax = nmax or (1200 if tier == "quick" else 10 ** 9)
+    nr0, lrand = (60, 12) if tier == "quick" else (400, 20)
+    nrand = nrand or nr0
     ws = []
     for s in vlib.V2:
         has = VER[s] < [2, 20, 3]
